@@ -1,7 +1,7 @@
 #!/usr/bin/env python3
 """Out-of-tree build of the btcdeb working tree plus the /verif harness programs.
 
-usage: build.py [--repo DIR] [--flavor plain|asan] [--quiet] target...
+usage: build.py [--repo DIR] [--flavor plain|asan|cov] [--quiet] target...
   targets: libs btcdeb btcc tap btcdeb_tty mc_<name> ... | all
 Prints the build directory on stdout (last line).
 
@@ -54,6 +54,9 @@ def gen_makefile(repo, bdir, flavor):
     if flavor == "asan":
         opt = "-O1 -g -fno-omit-frame-pointer -fsanitize=address,undefined -fno-sanitize-recover=undefined"
         ld = "-fsanitize=address,undefined"
+    elif flavor == "cov":
+        opt = "-O0 -g --coverage -DVERIF_COVERAGE"
+        ld = "--coverage"
     else:
         opt = "-O2"
         ld = ""
